@@ -31,6 +31,10 @@ func (node *Requalifier) Typecheck(ctx context.Context, env physical.Environment
 		} else {
 			name = fmt.Sprintf("%s.%s", node.qualifier, name)
 		}
+		if _, ok := outMapping[name]; ok {
+			// Which of the two columns would stay visible depends on the map iteration order.
+			panic(fmt.Errorf("duplicate column name: '%s'", name))
+		}
 		outMapping[name] = unique
 	}
 
